@@ -13,40 +13,67 @@ Local Open Scope byte_scope.
    consensus letter of TRANSFAC files; may be empty) *)
 Record prow := mkRow { pr_label : str; pr_toks : list str; pr_tail : str }.
 
-Record prec := mkPrec {
-  p_id : option str;
-  p_ac : option str;
-  p_na : option str;
-  p_de : option str;
-  p_po : bool;                (* the matrix header is spelled "PO" (else "P0") *)
-  p_sep : str;                (* blanks/tabs written before every symbol and every count *)
-  p_syms : str;               (* symbol letters of the P0 line, in file order; [] = no matrix *)
-  p_rows : list prow }.
+(* the lines of a record, in file order *)
+Inductive fieldk := FAC | FID | FNA | FDE.
+Inductive skipk := KBA | KBS | KBF | KCO.
+
+(* the lines of a reference block after its RN line *)
+Inductive refline :=
+| RX (pmid : str)                   (* "RX  PUBMED: pmid." *)
+| RA (text : str)                   (* "RA" followed by text (authors: not kept by the parser) *)
+| RT (title : str)                  (* "RT  title" *)
+| RL (link : str).                  (* "RL  link" *)
+
+Inductive item :=
+| IRef (num : str)                  (* "RN  [num]" or "RN  [num]; xref." followed by RX/RA/RT/RL lines *)
+       (xref : option str)
+       (lines : list refline)
+| IField (k : fieldk) (v : str)     (* "AC  v" / "ID  v" / "NA  v" / "DE  v" *)
+| ISkip (k : skipk) (v : str)       (* "BA" / "BS" / "BF" / "CO" followed by the text v (not shown by Record) *)
+| IXX                               (* an "XX" separator line *)
+| IMatrix (po : bool)               (* the header is spelled "PO" (else "P0") *)
+          (sep : str)               (* blanks/tabs written before every symbol and every count *)
+          (syms : str)              (* symbol letters of the header, in file order *)
+          (rows : list prow).
+
+Definition prec := list item.
+
+Definition field_tag (k : fieldk) : byte * byte :=
+  match k with FAC => ("A", "C") | FID => ("I", "D") | FNA => ("N", "A") | FDE => ("D", "E") end.
+Definition skip_tag (k : skipk) : byte * byte :=
+  match k with KBA => ("B", "A") | KBS => ("B", "S") | KBF => ("B", "F") | KCO => ("C", "O") end.
 
 Definition eol_of (crlf : bool) : str := if crlf then [x0d; x0a] else [x0a].
 
 Definition xx_line (eol : str) : str := ["X"; "X"] ++ eol.
 
-Definition print_field (a b : byte) (eol : str) (v : option str) : str :=
-  match v with
-  | None => []
-  | Some x => [a; b; " "; " "] ++ x ++ eol ++ xx_line eol
-  end.
-
 Definition print_row (eol sep : str) (r : prow) : str :=
   pr_label r ++ flat_map (fun t => sep ++ t) (pr_toks r) ++ pr_tail r ++ eol.
 
-Definition print_matrix (eol : str) (po : bool) (sep syms : str) (rows : list prow) : str :=
-  match syms with
-  | [] => []
-  | _ => ["P"; if po then "O" else "0"] ++ flat_map (fun c => sep ++ [c]) syms ++ eol
-         ++ flat_map (print_row eol sep) rows ++ xx_line eol
+Definition print_refline (eol : str) (l : refline) : str :=
+  match l with
+  | RX p => ["R"; "X"; " "; " "; "P"; "U"; "B"; "M"; "E"; "D"; ":"; " "] ++ p ++ ["."] ++ eol
+  | RA t => ["R"; "A"] ++ t ++ eol
+  | RT t => ["R"; "T"; " "; " "] ++ t ++ eol
+  | RL t => ["R"; "L"; " "; " "] ++ t ++ eol
   end.
 
-Definition print_body (eol : str) (r : prec) : str :=
-  print_field "A" "C" eol (p_ac r) ++ print_field "I" "D" eol (p_id r) ++
-  print_field "N" "A" eol (p_na r) ++ print_field "D" "E" eol (p_de r) ++
-  print_matrix eol (p_po r) (p_sep r) (p_syms r) (p_rows r).
+Definition print_xref (xref : option str) : str :=
+  match xref with Some x => [";"; " "] ++ x ++ ["."] | None => [] end.
+
+Definition print_item (eol : str) (it : item) : str :=
+  match it with
+  | IRef num xref lines =>
+      ["R"; "N"; " "; " "; "["] ++ num ++ ["]"] ++ print_xref xref ++ eol ++ flat_map (print_refline eol) lines
+  | IField k v => [fst (field_tag k); snd (field_tag k); " "; " "] ++ v ++ eol
+  | ISkip k v => [fst (skip_tag k); snd (skip_tag k)] ++ v ++ eol
+  | IXX => xx_line eol
+  | IMatrix po sep syms rows =>
+      ["P"; if po then "O" else "0"] ++ flat_map (fun c => sep ++ [c]) syms ++ eol
+      ++ flat_map (print_row eol sep) rows
+  end.
+
+Definition print_body (eol : str) (r : prec) : str := flat_map (print_item eol) r.
 
 (* a record with its "//" line; [term] = the line ending after "//" (possibly none for the last) *)
 Definition print_record (eol term : str) (r : prec) : str :=
@@ -79,13 +106,89 @@ Fixpoint sym_indices (al : alpha) (syms : str) : option (list nat) :=
               end
   end.
 
-Definition expected_record (al : alpha) (r : prec) : record :=
-  mkRec (p_id r) (p_ac r) (p_na r) (p_de r)
-        (match p_syms r, sym_indices al (p_syms r) with
-         | _ :: _, Some idx => Some (build_matrix al idx (map pr_toks (p_rows r)))
-         | _, _ => None
-         end)
-        [].
+Definition set_ac v r := mkRec (r_id r) (Some v) (r_name r) (r_desc r) (r_data r) (r_refs r).
+Definition set_id v r := mkRec (Some v) (r_ac r) (r_name r) (r_desc r) (r_data r) (r_refs r).
+Definition set_na v r := mkRec (r_id r) (r_ac r) (Some v) (r_desc r) (r_data r) (r_refs r).
+Definition set_de v r := mkRec (r_id r) (r_ac r) (r_name r) (Some v) (r_data r) (r_refs r).
+Definition set_data m r := mkRec (r_id r) (r_ac r) (r_name r) (r_desc r) (Some m) (r_refs r).
+
+Definition set_field (k : fieldk) : str -> record -> record :=
+  match k with FAC => set_ac | FID => set_id | FNA => set_na | FDE => set_de end.
+
+(* the effect of one line on the record being built: a later line of the same kind replaces
+   an earlier one *)
+(* pmid / link / title of a reference block: the last RX / RL / RT line *)
+Definition apply_refline (x : option str * option str * option str) (l : refline) :=
+  let '(pmid, link, title) := x in
+  match l with
+  | RX p => (Some p, link, title)
+  | RA _ => (pmid, link, title)
+  | RT t => (pmid, link, Some t)
+  | RL t => (pmid, Some t, title)
+  end.
+
+Definition ref_of (num : str) (xref : option str) (lines : list refline) : reference :=
+  let '(pmid, link, title) := fold_left apply_refline lines (None, None, None) in
+  mkRef (match u32 num with POk n _ => n | _ => 0%N end) xref title link pmid.
+
+Definition add_ref (x : reference) (r : record) : record :=
+  mkRec (r_id r) (r_ac r) (r_name r) (r_desc r) (r_data r) (r_refs r ++ [x]).
+
+Definition apply_item (al : alpha) (r : record) (it : item) : record :=
+  match it with
+  | IRef num xref lines => add_ref (ref_of num xref lines) r
+  | IField k v => set_field k v r
+  | IMatrix _ _ syms rows =>
+      match sym_indices al syms with
+      | Some idx => set_data (build_matrix al idx (map pr_toks rows)) r
+      | None => r
+      end
+  | _ => r
+  end.
+
+Definition expected_record (al : alpha) (p : prec) : record :=
+  fold_left (apply_item al) p empty_record.
+
+(* the same in closed form: every field is the value of the last line of its kind, the matrix
+   that of the last matrix block (proved equal to [expected_record] in CellProofs) *)
+Definition fieldk_eqb (a b : fieldk) : bool :=
+  match a, b with FAC, FAC | FID, FID | FNA, FNA | FDE, FDE => true | _, _ => false end.
+
+Fixpoint last_field (k : fieldk) (p : prec) : option str :=
+  match p with
+  | [] => None
+  | it :: t =>
+      match last_field k t with
+      | Some v => Some v
+      | None => match it with
+                | IField k' v => if fieldk_eqb k k' then Some v else None
+                | _ => None
+                end
+      end
+  end.
+
+Definition item_matrix (al : alpha) (it : item) : option (list (list cell)) :=
+  match it with
+  | IMatrix _ _ syms rows =>
+      match sym_indices al syms with
+      | Some idx => Some (build_matrix al idx (map pr_toks rows))
+      | None => None
+      end
+  | _ => None
+  end.
+
+Fixpoint refs_of (p : prec) : list reference :=
+  match p with
+  | [] => []
+  | IRef num xref lines :: t => ref_of num xref lines :: refs_of t
+  | _ :: t => refs_of t
+  end.
+
+Fixpoint last_matrix (al : alpha) (p : prec) : option (list (list cell)) :=
+  match p with
+  | [] => None
+  | it :: t => match last_matrix al t with Some m => Some m | None => item_matrix al it end
+  end.
 
 (* ---- well-formedness of a printable file ---- *)
 
@@ -94,8 +197,6 @@ Definition no_nl (s : str) : bool := forallb (fun b => negb (is_nl b)) s.
 (* a metadata value: one line, valid UTF-8, nothing that `trim()` would remove *)
 Definition field_ok (s : str) : bool :=
   no_nl s && utf8_valid s && str_eqb (trim s) s.
-Definition ofield_ok (o : option str) : bool :=
-  match o with None => true | Some s => field_ok s end.
 
 (* a row label: what `nom::character::complete::u32` accepts entirely *)
 Definition label_ok (l : str) : bool :=
@@ -129,16 +230,34 @@ Definition row_ok (k : nat) (r : prow) : bool :=
   label_ok (pr_label r) && Nat.eqb (length (pr_toks r)) k && forallb token_ok (pr_toks r) &&
   tail_ok (pr_tail r).
 
-Definition prec_ok (al : alpha) (r : prec) : bool :=
-  ofield_ok (p_id r) && ofield_ok (p_ac r) && ofield_ok (p_na r) && ofield_ok (p_de r) &&
-  match p_syms r with
-  | [] => match p_rows r with [] => true | _ => false end
-  | syms =>
-      match sym_indices al syms with Some _ => true | None => false end &&
-      nodupb syms && sep_ok (p_sep r) &&
-      match p_rows r with [] => false | _ => true end &&
-      forallb (row_ok (length syms)) (p_rows r)
+Definition no_dot (s : str) : bool := forallb (fun b => negb (beq "." b)) s.
+
+Definition refline_ok (l : refline) : bool :=
+  match l with
+  | RX p => no_nl p && utf8_valid p && no_dot p && match p with [] => true | b :: _ => negb (is_blank b) end
+  | RA t => no_nl t && utf8_valid t
+  | RT t => field_ok t
+  | RL t => field_ok t
   end.
+
+Definition xref_ok (xref : option str) : bool :=
+  match xref with None => true | Some x => field_ok x && no_dot x end.
+
+Definition item_ok (al : alpha) (it : item) : bool :=
+  match it with
+  | IRef num xref lines => label_ok num && xref_ok xref && forallb refline_ok lines
+  | IField _ v => field_ok v
+  | ISkip _ v => no_nl v && utf8_valid v
+  | IXX => true
+  | IMatrix _ sep syms rows =>
+      match syms with [] => false | _ => true end &&
+      match sym_indices al syms with Some _ => true | None => false end &&
+      nodupb syms && sep_ok sep &&
+      match rows with [] => false | _ => true end &&
+      forallb (row_ok (length syms)) rows
+  end.
+
+Definition prec_ok (al : alpha) (r : prec) : bool := forallb (item_ok al) r.
 
 Definition vv_ok (vv : option str) : bool :=
   match vv with None => true | Some v => no_nl v && utf8_valid v end.
